@@ -1,6 +1,7 @@
 import RichModel.Model.Cells
 import RichModel.Model.Syntax
 import RichModel.Model.SyntaxWrap
+import RichModel.Model.SyntaxTrace
 import RichModel.Gen.CellWidths
 import RichModel.Drv.Proto
 /- Driver handlers for property C17 (Syntax / Traceback line fidelity). -/
@@ -43,6 +44,53 @@ def decWV (s : String) : Option Wrap.WVariant :=
   match s.toList with
   | [a, b, c, d, e, f, g, h] => some ⟨⟨a == '1', b == '1', c == '1', d == '1', e == '1', f == '1'⟩, g == '1', h == '1'⟩
   | _ => none
+
+
+/-- frames as `file,lineno;file,lineno` ("" = none) -/
+def decFrames (s : String) : List Frame :=
+  if s.isEmpty then [] else (s.splitOn ";").filterMap (fun t => match t.splitOn "," with
+    | [f, l] => some { file := decNat f, lineno := decNat l }
+    | _ => none)
+
+def encFrames (fs : List Frame) : String := ";".intercalate (fs.map (fun f => s!"{f.file},{f.lineno}"))
+
+/-- an exception tree in prefix form, blank-separated: `-` = None, else
+`N name truthy hasTb suppress isSyn frames <cause> <context>` -/
+def parseExc : Nat → List String → Option (Option Exc × List String)
+  | 0, _ => none
+  | _ + 1, [] => none
+  | fuel + 1, tok :: rest =>
+    if tok == "-" then some (none, rest)
+    else match rest with
+      | name :: t :: h :: sp :: sy :: frs :: rest =>
+        match parseExc fuel rest with
+        | some (c, rest) =>
+          match parseExc fuel rest with
+          | some (x, rest) =>
+            some (some (.mk (decNat name) (decFrames (if frs == "." then "" else frs)) (decBool t) (decBool h) (decBool sp) (decBool sy) c x), rest)
+          | none => none
+        | none => none
+      | _ => none
+
+def decExc (s : String) : Option Exc :=
+  let toks := s.splitOn " "
+  match parseExc (toks.length + 1) toks with
+  | some (some e, []) => some e
+  | _ => none
+
+def encStack (st : Stack) : String := s!"{st.name}:{encBool st.isCause}:{encBool st.isSyn}:{encFrames st.frames}"
+
+def encItem : Item → String
+  | .panel fs => "P " ++ encFrames fs
+  | .synPanel => "S"
+  | .excLine n syn => s!"E {n} {encBool syn}"
+  | .link d => "L " ++ encBool d
+
+def encFrameItem : FrameItem → String
+  | .blank => "B"
+  | .header f l => s!"H {f} {l}"
+  | .syntax code l k => s!"X {l} {encBool k} {encStr code}"
+  | .error => "E"
 
 def handlers : List (String × (List String → String)) := [
   -- the whole of console.render(Syntax(...), options): rows of characters
@@ -124,6 +172,36 @@ def handlers : List (String × (List String → String)) := [
       let l := decStr l
       if !lineInDomain cw (decNat w) false l then "unmodelled"
       else encStr (fitLine cw (decNat w) (decBool pad) (decBool noCrop) l)
+    | _ => "bad-args"),
+  -- Traceback.extract: the stacks (newest first) of an exception tree
+  ("tb_extract", fun a => match a with
+    | [exc] => match decExc exc with
+      | some e => "|".intercalate ((extract false e).map encStack)
+      | none => "bad-args"
+    | _ => "bad-args"),
+  -- Traceback.__rich_console__ after extract: the renderables in order
+  ("tb_items", fun a => match a with
+    | [exc] => match decExc exc with
+      | some e => "|".intercalate ((renderException e).map encItem)
+      | none => "bad-args"
+    | _ => "bad-args"),
+  -- Traceback.__rich_console__ on given stacks (name:isCause:isSyn:frames|…)
+  ("tb_render_stacks", fun a => match a with
+    | [stacks] =>
+      let sts : List Stack := if stacks.isEmpty then [] else (stacks.splitOn "|").filterMap (fun t => match t.splitOn ":" with
+        | [n, c, sy, fr] => some { name := decNat n, isCause := decBool c, isSyn := decBool sy, frames := decFrames fr }
+        | _ => none)
+      "|".intercalate ((renderTrace sts).map encItem)
+    | _ => "bad-args"),
+  -- Traceback._render_stack: per file (special, known, readable, content), the frames -> what is yielded
+  ("tb_stack", fun a => match a with
+    | [g, specials, knowns, readables, contents, frames] =>
+      let sp := decNatList specials
+      let kn := decNatList knowns
+      let rd := decNatList readables
+      let cs := decStrList contents
+      let fs : FileId → Option (List Char) := fun i => if rd.getD i 0 == 1 then some (cs.getD i []) else none
+      "|".intercalate ((renderStack (decBool g) (fun i => sp.getD i 0 == 1) (fun i => kn.getD i 0 == 1) fs (decFrames frames)).map encFrameItem)
     | _ => "bad-args"),
   ("tb_syntax_error", fun a => match a with
     | [text, offset] => encStrList (syntaxErrorRows (decStr text) (decInt offset))
